@@ -134,6 +134,13 @@ func (j *Joe) Subscribe(ctx context.Context, sub Subscription) error {
 	case err := <-done:
 		return err
 	case j.unsubscription <- done:
+		// The client may have failed right before the context was done and the
+		// unsubscription won the race above: its error is already buffered.
+		select {
+		case err := <-done:
+			return err
+		default:
+		}
 		return nil
 	}
 }
